@@ -619,10 +619,14 @@ class MQTTProtocol(MQTTBaseProtocol):
         Tries to restore the session state upon a new MQTT connection made (publisher)
         '''
         #log.debug("{event}", event="Sync Persistent Session")
+        # Only what earlier connections left behind: a request already sent on
+        # this connection (publish() before CONNACK) has its retry alarm running.
         for _, reply in self.factory.windowPubRelease[self.addr].items():
-            self._retryRelease(reply, dup=True)
+            if reply.alarm is None:
+                self._retryRelease(reply, dup=True)
         for _, request in self.factory.windowPublish[self.addr].items():
-            self._retryPublish(request, dup=True)
+            if request.alarm is None:
+                self._retryPublish(request, dup=True)
 
     # --------------------------------------------------------------------------
 
